@@ -576,4 +576,1030 @@ theorem dfsOrder_complete {p : Program} (w : WF p) :
   simp only [List.not_mem_nil, or_false] at this
   exact hstep _ _ hr this
 
+/-! ## Part 3 — symbol resolution -/
+
+theorem addAll_seen {n : Name} : ∀ (b : List (Name × Cat)) (c' : Cat) (r : List (Name × Cat)) (t : Table),
+    (tlookup n t).isSome = true → addAll (b ++ (n, c') :: r) t = none
+  | [], c', r, t, h => by simp [addAll, h]
+  | (m, c) :: b, c', r, t, h => by
+    simp only [List.cons_append, addAll]
+    split
+    · rfl
+    · apply addAll_seen b c' r
+      simp only [tlookup]
+      split
+      · rfl
+      · exact h
+
+/-- RegisterNames refuses any name defined twice, whatever the two kinds (enums included) -/
+theorem addAll_dup (n : Name) (c1 c2 : Cat) : ∀ (a b r : List (Name × Cat)) (t : Table),
+    addAll (a ++ (n, c1) :: (b ++ (n, c2) :: r)) t = none
+  | [], b, r, t => by
+    simp only [List.nil_append, addAll]
+    split
+    · rfl
+    · exact addAll_seen b c2 r _ (by simp [tlookup])
+  | (m, c) :: a, b, r, t => by
+    simp only [List.cons_append, addAll]
+    split
+    · rfl
+    · exact addAll_dup n c1 c2 a b r _
+
+theorem addAll_keeps {n : Name} {c : Cat} : ∀ (l : List (Name × Cat)) (t t' : Table),
+    addAll l t = some t' → tlookup n t = some c → tlookup n t' = some c
+  | [], t, t', h, hl => by simp only [addAll, Option.some.injEq] at h; exact h ▸ hl
+  | (m, d) :: l, t, t', h, hl => by
+    simp only [addAll] at h
+    split at h
+    · simp at h
+    · rename_i hm
+      apply addAll_keeps l _ t' h
+      simp only [tlookup]
+      split
+      · rename_i e
+        subst e
+        simp [hl] at hm
+      · exact hl
+
+theorem addAll_defines {n : Name} {c : Cat} : ∀ (l : List (Name × Cat)) (t t' : Table),
+    addAll l t = some t' → (n, c) ∈ l → tlookup n t' = some c
+  | [], _, _, _, hm => by simp at hm
+  | (m, d) :: l, t, t', h, hm => by
+    simp only [addAll] at h
+    split at h
+    · simp at h
+    · cases List.mem_cons.mp hm with
+      | inl e =>
+        cases e
+        exact addAll_keeps l _ t' h (by simp [tlookup])
+      | inr hr => exact addAll_defines l _ t' h hr
+
+/-- `n` occurs as a reference somewhere inside the type expression -/
+inductive Mentions (n : Name) : Ty → Prop
+  | ref : Mentions n (.ref n)
+  | list {v : Ty} : Mentions n v → Mentions n (.list v)
+  | mapKey {k v : Ty} : Mentions n k → Mentions n (.map k v)
+  | mapVal {k v : Ty} : Mentions n v → Mentions n (.map k v)
+
+/-- ResolveType fails on the name `n` itself -/
+def BadRef (cfg : Cfg) (f : File) (tbl : Table) (incs : List IncV) (n : Name) : Prop :=
+  ∀ tgt, ∃ e, resolveType cfg f tbl incs tgt (.ref n) = .error e
+
+theorem resolveType_mentions {cfg : Cfg} {f : File} {tbl : Table} {incs : List IncV} {n : Name}
+    (hb : BadRef cfg f tbl incs n) : ∀ {t : Ty}, Mentions n t → ∀ tgt, ∃ e, resolveType cfg f tbl incs tgt t = .error e := by
+  intro t hm
+  induction hm with
+  | ref => exact hb
+  | list _ ih =>
+    intro tgt
+    obtain ⟨e, he⟩ := ih none
+    exact ⟨e, by simp [resolveType, he]⟩
+  | mapKey _ ih =>
+    intro tgt
+    obtain ⟨e, he⟩ := ih none
+    exact ⟨e, by simp [resolveType, he]⟩
+  | @mapVal k v _ ih =>
+    intro tgt
+    obtain ⟨e, he⟩ := ih none
+    cases hk : resolveType cfg f tbl incs none k with
+    | error e' => exact ⟨e', by simp [resolveType, hk]⟩
+    | ok r => exact ⟨e, by simp [resolveType, hk, he]⟩
+
+theorem badRef_undefined {cfg : Cfg} {f : File} {tbl : Table} {incs : List IncV} {n a : Name}
+    (h1 : splitType n = .one a) (h2 : tlookup a tbl = none) : BadRef cfg f tbl incs n :=
+  fun _ => ⟨.undefinedType, by simp [resolveType, h1, h2]⟩
+
+theorem badRef_nontype {cfg : Cfg} {f : File} {tbl : Table} {incs : List IncV} {n a : Name} {c : Cat}
+    (h1 : splitType n = .one a) (h2 : tlookup a tbl = some c) (h3 : isTypeCat cfg c = false) : BadRef cfg f tbl incs n :=
+  fun _ => ⟨.notAType, by simp [resolveType, h1, h2, h3]⟩
+
+theorem findExt_none {good : Cat → Bool} {pre nm : Name} : ∀ (incs : List IncV) (k : Nat),
+    (∀ v ∈ incs, v.pfx = pre → ∀ c, tlookup nm v.tbl = some c → good c = false) → findExt good pre nm incs k = none
+  | [], _, _ => rfl
+  | v :: r, k, h => by
+    have ih := findExt_none r (k + 1) fun v' hv' => h v' (List.mem_cons_of_mem _ hv')
+    simp only [findExt]
+    split
+    · rename_i hp
+      cases hl : tlookup nm v.tbl with
+      | none => simpa using ih
+      | some c =>
+        have := h v List.mem_cons_self hp c hl
+        simpa [this] using ih
+    · exact ih
+
+/-- a qualified name that no include with that prefix defines as a type (undefined there, a constant, a service, or no such include) -/
+theorem badRef_qualified {cfg : Cfg} {f : File} {tbl : Table} {incs : List IncV} {n pre nm : Name}
+    (h1 : splitType n = .two pre nm)
+    (h2 : ∀ v ∈ incs, v.pfx = pre → ∀ c, tlookup nm v.tbl = some c → isTypeCat cfg c = false) : BadRef cfg f tbl incs n :=
+  fun _ => ⟨.undefinedType, by simp [resolveType, h1, findExt_none incs 0 h2]⟩
+
+/-- a work item on which ResolveAST stops -/
+def WorkFails (cfg : Cfg) (p : Program) (tables : List (Option Table)) (fuel i : Nat) (f : File) (tbl : Table)
+    (incs : List IncV) : Work → Prop
+  | .type tgt t => ∃ e, resolveType cfg f tbl incs tgt t = .error e
+  | .idents ids => resolveIdents cfg p tables fuel i f ids ≠ .ok
+  | .base s => resolveBase tbl incs s = false
+
+theorem doWork_fails {cfg : Cfg} {p : Program} {tables : List (Option Table)} {fuel i : Nat} {f : File} {tbl : Table}
+    {incs : List IncV} {w : Work} (hw : WorkFails cfg p tables fuel i f tbl incs w) (r : List Work) :
+    ∀ (a : List Work) (acc : List Pend), (doWork cfg p tables fuel i f tbl incs (a ++ w :: r) acc).1 ≠ .ok
+  | [], acc => by
+    cases w with
+    | type tgt t =>
+      obtain ⟨e, he⟩ := hw
+      simp [doWork, he]
+    | idents ids =>
+      simp only [WorkFails] at hw
+      cases h : resolveIdents cfg p tables fuel i f ids with
+      | ok => exact absurd h hw
+      | err e => simp [doWork, h]
+      | crash => simp [doWork, h]
+    | base s =>
+      simp only [WorkFails] at hw
+      simp [doWork, hw]
+  | x :: a, acc => by
+    cases x with
+    | type tgt t =>
+      cases h : resolveType cfg f tbl incs tgt t with
+      | error e => simp [doWork, h]
+      | ok x =>
+        simp only [List.cons_append, doWork, h]
+        exact doWork_fails hw r a _
+    | idents ids =>
+      cases h : resolveIdents cfg p tables fuel i f ids with
+      | ok =>
+        simp only [List.cons_append, doWork, h]
+        exact doWork_fails hw r a _
+      | err e => simp [doWork, h]
+      | crash => simp [doWork, h]
+    | base s =>
+      cases h : resolveBase tbl incs s with
+      | true =>
+        simp only [List.cons_append, doWork, h, if_true]
+        exact doWork_fails hw r a _
+      | false => simp [doWork, h]
+
+theorem resolveFile_of_work {cfg : Cfg} {p : Program} {i : Nat} {f : File} {tbl : Table}
+    (hf : p.files[i]? = some f) (ht : registerNames f = some tbl) {w : Work} (hm : w ∈ fileWork f)
+    (hw : WorkFails cfg p (programTables p) (enumFuel p) i f tbl (incViews (programTables p) f) w) :
+    resolveFile cfg p (programTables p) i ≠ .ok := by
+  obtain ⟨a, r, hsplit⟩ := List.append_of_mem hm
+  have := doWork_fails hw r a []
+  rw [← hsplit] at this
+  simp only [resolveFile, hf, ht]
+  cases hd : doWork cfg p (programTables p) (enumFuel p) i f tbl (incViews (programTables p) f) (fileWork f) [] with
+  | mk res tds =>
+    rw [hd] at this
+    cases res with
+    | ok => exact absurd rfl this
+    | err e => simp
+    | crash => simp
+
+theorem resolveFile_of_dup {cfg : Cfg} {p : Program} {i : Nat} {f : File}
+    (hf : p.files[i]? = some f) (ht : registerNames f = none) : resolveFile cfg p (programTables p) i ≠ .ok := by
+  simp [resolveFile, hf, ht]
+
+/-! ### ResolveTypedefs -/
+
+theorem getD_set_ne (cats : List Bool) (k j : Nat) (h : j ≠ k) (b d : Bool) : (cats.set k b).getD j d = cats.getD j d := by
+  simp only [List.getD_eq_getElem?_getD]
+  rw [List.getElem?_set_ne (Ne.symm h)]
+
+/-- `C` is a set of local typedefs each of which is an alias of a member of `C`: the pairs that
+target a member have a member as their source -/
+def PendClosed (C : List Nat) (tds : List Pend) : Prop :=
+  ∀ it ∈ tds, ∀ k ∈ C, it.tgt = some k → ∃ j ∈ C, it.src = some j
+
+def CatsStuck (C : List Nat) (cats : List Bool) : Prop := ∀ k ∈ C, cats.getD k false = true
+
+theorem tdRound_spec (C : List Nat) : ∀ (tds : List Pend) (cats : List Bool),
+    PendClosed C tds → CatsStuck C cats →
+    CatsStuck C (tdRound cats tds).1 ∧
+    (∀ it ∈ tds, (∃ k ∈ C, it.tgt = some k) → it ∈ (tdRound cats tds).2) ∧
+    (∀ it ∈ (tdRound cats tds).2, it ∈ tds) ∧ (tdRound cats tds).2.length ≤ tds.length
+  | [], cats, _, hs => ⟨hs, by simp, by simp [tdRound], by simp [tdRound]⟩
+  | it :: r, cats, hc, hs => by
+    have hcr : PendClosed C r := fun x hx => hc x (List.mem_cons_of_mem _ hx)
+    by_cases hsrc : srcIsTypedef cats it = true
+    · -- source still a typedef: kept
+      obtain ⟨h1, h2, h3, h4⟩ := tdRound_spec C r cats hcr hs
+      simp only [tdRound, hsrc, if_true]
+      refine ⟨h1, ?_, ?_, by simp only [List.length_cons]; omega⟩
+      · intro x hx hk
+        cases List.mem_cons.mp hx with
+        | inl e => exact e ▸ List.mem_cons_self
+        | inr hr => exact List.mem_cons_of_mem _ (h2 x hr hk)
+      · intro x hx
+        cases List.mem_cons.mp hx with
+        | inl e => exact e ▸ List.mem_cons_self
+        | inr hr => exact List.mem_cons_of_mem _ (h3 x hr)
+    · -- the target is not a member of C
+      have hnot : ∀ k ∈ C, it.tgt ≠ some k := by
+        intro k hk ht
+        obtain ⟨j, hj, hsj⟩ := hc it List.mem_cons_self k hk ht
+        exact hsrc (by simp only [srcIsTypedef, hsj]; exact hs j hj)
+      have hs' : CatsStuck C (clearTarget cats it) := by
+        intro k hk
+        simp only [clearTarget]
+        cases htg : it.tgt with
+        | none => exact hs k hk
+        | some k' =>
+          have : k ≠ k' := fun e => hnot k hk (e ▸ htg)
+          simp only
+          rw [getD_set_ne cats k' k this]
+          exact hs k hk
+      obtain ⟨h1, h2, h3, h4⟩ := tdRound_spec C r _ hcr hs'
+      simp only [tdRound, hsrc, Bool.false_eq_true, if_false]
+      refine ⟨h1, ?_, fun x hx => List.mem_cons_of_mem _ (h3 x hx), by simp only [List.length_cons]; omega⟩
+      intro x hx hk
+      cases List.mem_cons.mp hx with
+      | inl e =>
+        obtain ⟨k, hkC, hkt⟩ := hk
+        exact absurd (e ▸ hkt) (hnot k hkC)
+      | inr hr => exact h2 x hr hk
+
+theorem resolveTypedefs_stuck (C : List Nat) : ∀ (fuel : Nat) (cats : List Bool) (tds : List Pend),
+    PendClosed C tds → CatsStuck C cats → (∃ it ∈ tds, ∃ k ∈ C, it.tgt = some k) →
+    resolveTypedefs fuel cats tds ≠ some true
+  | 0, _, _, _, _, _ => by simp [resolveTypedefs]
+  | fuel + 1, cats, tds, hc, hs, ⟨it, hit, hk⟩ => by
+    obtain ⟨h1, h2, h3, _⟩ := tdRound_spec C tds cats hc hs
+    simp only [resolveTypedefs]
+    split
+    · rename_i he
+      cases tds with
+      | nil => simp at hit
+      | cons _ _ => simp at he
+    · cases hr : tdRound cats tds with
+      | mk cats' tmp =>
+        rw [hr] at h1 h2 h3
+        simp only
+        split
+        · simp
+        · exact resolveTypedefs_stuck C fuel cats' tmp
+            (fun x hx => hc x (h3 x hx)) h1 ⟨it, h2 it hit hk, hk⟩
+
+theorem tdRound_length : ∀ (tds : List Pend) (cats : List Bool), (tdRound cats tds).2.length ≤ tds.length
+  | [], _ => by simp [tdRound]
+  | it :: r, cats => by
+    by_cases hsrc : srcIsTypedef cats it = true
+    · have := tdRound_length r cats
+      simp only [tdRound, hsrc, if_true, List.length_cons]
+      omega
+    · have := tdRound_length r (clearTarget cats it)
+      simp only [tdRound, hsrc, Bool.false_eq_true, if_false, List.length_cons]
+      omega
+
+/-- the loop of ResolveTypedefs ends: every round that goes on has removed a pair -/
+theorem resolveTypedefs_fuel : ∀ (fuel : Nat) (cats : List Bool) (tds : List Pend),
+    tds.length < fuel → resolveTypedefs fuel cats tds ≠ none
+  | 0, _, _, h => by omega
+  | fuel + 1, cats, tds, h => by
+    simp only [resolveTypedefs]
+    split
+    · simp
+    · have hl := tdRound_length tds cats
+      cases hr : tdRound cats tds with
+      | mk cats' tmp =>
+        rw [hr] at hl
+        simp only
+        split
+        · simp
+        · rename_i hne
+          exact resolveTypedefs_fuel fuel cats' tmp (by simp only at hl; omega)
+
+/-! ### the pairs ResolveAST collects -/
+
+theorem resolveType_pend {cfg : Cfg} {f : File} {tbl : Table} {incs : List IncV} :
+    ∀ (t : Ty) (tgt : Option Nat) (b : Bool) (ps : List Pend), resolveType cfg f tbl incs tgt t = .ok (b, ps) →
+    ∀ it ∈ ps, ∀ k, it.tgt = some k →
+      tgt = some k ∧ ∃ n, t = .ref n ∧
+        ((∃ a, splitType n = .one a ∧ it.src = typedefIdx f a) ∨ (∃ pre nm, splitType n = .two pre nm ∧ it.src = none))
+  | .base, tgt, b, ps, h, it, hit, k, hk => by
+    simp only [resolveType, Except.ok.injEq, Prod.mk.injEq] at h
+    rw [← h.2] at hit
+    simp at hit
+  | .list v, tgt, b, ps, h, it, hit, k, hk => by
+    simp only [resolveType] at h
+    cases hv : resolveType cfg f tbl incs none v with
+    | error e => simp [hv] at h
+    | ok r =>
+      obtain ⟨b', ps'⟩ := r
+      simp only [hv, Except.ok.injEq, Prod.mk.injEq] at h
+      rw [← h.2] at hit
+      have := (resolveType_pend v none b' ps' hv it hit k hk).1
+      simp at this
+  | .map kt v, tgt, b, ps, h, it, hit, k, hk => by
+    simp only [resolveType] at h
+    cases hkt : resolveType cfg f tbl incs none kt with
+    | error e => simp [hkt] at h
+    | ok r =>
+      obtain ⟨b1, ps1⟩ := r
+      cases hv : resolveType cfg f tbl incs none v with
+      | error e => simp [hkt, hv] at h
+      | ok r2 =>
+        obtain ⟨b2, ps2⟩ := r2
+        simp only [hkt, hv, Except.ok.injEq, Prod.mk.injEq] at h
+        rw [← h.2] at hit
+        cases List.mem_append.mp hit with
+        | inl h1 =>
+          have := (resolveType_pend kt none b1 ps1 hkt it h1 k hk).1
+          simp at this
+        | inr h2 =>
+          have := (resolveType_pend v none b2 ps2 hv it h2 k hk).1
+          simp at this
+  | .ref n, tgt, b, ps, h, it, hit, k, hk => by
+    simp only [resolveType] at h
+    cases hs : splitType n with
+    | empty => simp [hs] at h
+    | one a =>
+      simp only [hs] at h
+      cases hl : tlookup a tbl with
+      | none => simp [hl] at h
+      | some c =>
+        simp only [hl] at h
+        split at h
+        · split at h
+          · simp only [Except.ok.injEq, Prod.mk.injEq] at h
+            rw [← h.2] at hit
+            simp only [List.mem_singleton] at hit
+            subst hit
+            exact ⟨hk, n, rfl, Or.inl ⟨a, hs, rfl⟩⟩
+          · simp only [Except.ok.injEq, Prod.mk.injEq] at h
+            rw [← h.2] at hit
+            simp at hit
+        · simp at h
+    | two pre nm =>
+      simp only [hs] at h
+      cases hx : findExt (isTypeCat cfg) pre nm incs 0 with
+      | none => simp [hx] at h
+      | some r =>
+        obtain ⟨ix, c⟩ := r
+        simp only [hx] at h
+        split at h
+        · simp only [Except.ok.injEq, Prod.mk.injEq] at h
+          rw [← h.2] at hit
+          simp only [List.mem_singleton] at hit
+          subst hit
+          exact ⟨hk, n, rfl, Or.inr ⟨pre, nm, hs, rfl⟩⟩
+        · simp only [Except.ok.injEq, Prod.mk.injEq] at h
+          rw [← h.2] at hit
+          simp at hit
+
+/-- every pair in the result either was there before or comes from a `.type` item of the list -/
+theorem doWork_pend {cfg : Cfg} {p : Program} {tables : List (Option Table)} {fuel i : Nat} {f : File} {tbl : Table}
+    {incs : List IncV} : ∀ (ws : List Work) (acc : List Pend) (res : RRes) (out : List Pend),
+    doWork cfg p tables fuel i f tbl incs ws acc = (res, out) →
+    ∀ it ∈ out, it ∈ acc ∨ ∃ tgt t b ps, Work.type tgt t ∈ ws ∧ resolveType cfg f tbl incs tgt t = .ok (b, ps) ∧ it ∈ ps
+  | [], acc, res, out, h, it, hit => by
+    simp only [doWork, Prod.mk.injEq] at h
+    exact Or.inl (h.2 ▸ hit)
+  | .type tgt t :: r, acc, res, out, h, it, hit => by
+    simp only [doWork] at h
+    cases ht : resolveType cfg f tbl incs tgt t with
+    | error e =>
+      simp only [ht, Prod.mk.injEq] at h
+      exact Or.inl (h.2 ▸ hit)
+    | ok x =>
+      obtain ⟨b, ps⟩ := x
+      simp only [ht] at h
+      cases doWork_pend r (acc ++ ps) res out h it hit with
+      | inl h1 =>
+        cases List.mem_append.mp h1 with
+        | inl h2 => exact Or.inl h2
+        | inr h2 => exact Or.inr ⟨tgt, t, b, ps, List.mem_cons_self, ht, h2⟩
+      | inr h1 =>
+        obtain ⟨tgt', t', b', ps', hm, hr, hi⟩ := h1
+        exact Or.inr ⟨tgt', t', b', ps', List.mem_cons_of_mem _ hm, hr, hi⟩
+  | .idents ids :: r, acc, res, out, h, it, hit => by
+    simp only [doWork] at h
+    split at h
+    · cases doWork_pend r acc res out h it hit with
+      | inl h1 => exact Or.inl h1
+      | inr h1 =>
+        obtain ⟨tgt', t', b', ps', hm, hr, hi⟩ := h1
+        exact Or.inr ⟨tgt', t', b', ps', List.mem_cons_of_mem _ hm, hr, hi⟩
+    · simp only [Prod.mk.injEq] at h
+      exact Or.inl (h.2 ▸ hit)
+  | .base s :: r, acc, res, out, h, it, hit => by
+    simp only [doWork] at h
+    split at h
+    · cases doWork_pend r acc res out h it hit with
+      | inl h1 => exact Or.inl h1
+      | inr h1 =>
+        obtain ⟨tgt', t', b', ps', hm, hr, hi⟩ := h1
+        exact Or.inr ⟨tgt', t', b', ps', List.mem_cons_of_mem _ hm, hr, hi⟩
+    · simp only [Prod.mk.injEq] at h
+      exact Or.inl (h.2 ▸ hit)
+
+/-- a successful run has collected the pairs of every `.type` item -/
+theorem doWork_collects {cfg : Cfg} {p : Program} {tables : List (Option Table)} {fuel i : Nat} {f : File} {tbl : Table}
+    {incs : List IncV} : ∀ (ws : List Work) (acc : List Pend) (out : List Pend),
+    doWork cfg p tables fuel i f tbl incs ws acc = (.ok, out) →
+    (∀ it ∈ acc, it ∈ out) ∧
+    ∀ tgt t, Work.type tgt t ∈ ws → ∃ b ps, resolveType cfg f tbl incs tgt t = .ok (b, ps) ∧ ∀ it ∈ ps, it ∈ out
+  | [], acc, out, h => by
+    simp only [doWork, Prod.mk.injEq, true_and] at h
+    exact ⟨fun it hi => h ▸ hi, by simp⟩
+  | .type tgt t :: r, acc, out, h => by
+    simp only [doWork] at h
+    cases ht : resolveType cfg f tbl incs tgt t with
+    | error e => simp [ht] at h
+    | ok x =>
+      obtain ⟨b, ps⟩ := x
+      simp only [ht] at h
+      obtain ⟨h1, h2⟩ := doWork_collects r (acc ++ ps) out h
+      refine ⟨fun it hi => h1 it (List.mem_append_left _ hi), ?_⟩
+      intro tgt' t' hm
+      cases List.mem_cons.mp hm with
+      | inl e =>
+        cases e
+        exact ⟨b, ps, ht, fun it hi => h1 it (List.mem_append_right _ hi)⟩
+      | inr hr => exact h2 tgt' t' hr
+  | .idents ids :: r, acc, out, h => by
+    simp only [doWork] at h
+    split at h
+    · obtain ⟨h1, h2⟩ := doWork_collects r acc out h
+      refine ⟨h1, fun tgt' t' hm => ?_⟩
+      cases List.mem_cons.mp hm with
+      | inl e => cases e
+      | inr hr => exact h2 tgt' t' hr
+    · rename_i e hne
+      simp only [Prod.mk.injEq] at h
+      exact absurd h.1 (by intro he; exact hne he)
+  | .base s :: r, acc, out, h => by
+    simp only [doWork] at h
+    split at h
+    · obtain ⟨h1, h2⟩ := doWork_collects r acc out h
+      refine ⟨h1, fun tgt' t' hm => ?_⟩
+      cases List.mem_cons.mp hm with
+      | inl e => cases e
+      | inr hr => exact h2 tgt' t' hr
+    · simp at h
+
+theorem mem_enumFrom {α : Type} : ∀ (l : List α) (s k : Nat) (x : α), (k, x) ∈ enumFrom s l ↔ s ≤ k ∧ l[k - s]? = some x
+  | [], s, k, x => by simp [enumFrom]
+  | y :: l, s, k, x => by
+    simp only [enumFrom, List.mem_cons, Prod.mk.injEq, mem_enumFrom l (s + 1) k x]
+    constructor
+    · rintro (⟨rfl, rfl⟩ | ⟨h1, h2⟩)
+      · simp
+      · refine ⟨by omega, ?_⟩
+        have : k - s = (k - (s + 1)) + 1 := by omega
+        rw [this, List.getElem?_cons_succ]
+        exact h2
+    · rintro ⟨h1, h2⟩
+      by_cases hk : k = s
+      · subst hk
+        simp only [Nat.sub_self, List.getElem?_cons_zero, Option.some.injEq] at h2
+        exact Or.inl ⟨rfl, h2.symm⟩
+      · refine Or.inr ⟨by omega, ?_⟩
+        have : k - s = (k - (s + 1)) + 1 := by omega
+        rw [this, List.getElem?_cons_succ] at h2
+        exact h2
+
+/-- the `.type (some k) _` items of a file are exactly its typedefs, numbered -/
+theorem fileWork_typedef_item {f : File} {k : Nat} {t : Ty} :
+    Work.type (some k) t ∈ fileWork f ↔ ∃ td, f.typedefs[k]? = some td ∧ td.ty = t := by
+  simp only [fileWork, List.mem_append, List.mem_map, List.mem_flatMap, Prod.exists]
+  constructor
+  · rintro (((⟨k', td, hm, he⟩ | ⟨c, _, hc⟩) | ⟨s, _, fl, _, hfl⟩) | ⟨s, _, hs⟩)
+    · cases he
+      have := (mem_enumFrom f.typedefs 0 k td).mp hm
+      exact ⟨td, by simpa using this.2, rfl⟩
+    · simp at hc
+    · simp only [fieldWork] at hfl
+      split at hfl <;> simp at hfl
+    · rcases hs with ⟨fn, _, hfn⟩ | hb
+      · simp only [funcWork, List.mem_append, List.mem_map] at hfn
+        rcases hfn with (hfn | ⟨a, _, ha⟩) | ⟨a, _, ha⟩
+        · split at hfn <;> simp at hfn
+        · simp at ha
+        · simp at ha
+      · simp at hb
+  · rintro ⟨td, htd, rfl⟩
+    exact Or.inl (Or.inl (Or.inl ⟨k, td, (mem_enumFrom f.typedefs 0 k td).mpr ⟨Nat.zero_le _, by simpa using htd⟩, rfl⟩))
+
+theorem typedefIdx_spec {f : File} {a : Name} {j : Nat} (h : typedefIdx f a = some j) :
+    ∃ td, f.typedefs[j]? = some td ∧ td.alias = a := by
+  simp only [typedefIdx] at h
+  split at h
+  · rename_i hlt
+    simp only [Option.some.injEq] at h
+    subst h
+    refine ⟨f.typedefs[List.findIdx (fun td => decide (td.alias = a)) f.typedefs], List.getElem?_eq_getElem hlt, ?_⟩
+    have := List.findIdx_getElem (p := fun td : Typedef => decide (td.alias = a)) (w := hlt)
+    simpa using this
+  · simp at h
+
+theorem symbols_typedef {f : File} {j : Nat} {td : Typedef} (h : f.typedefs[j]? = some td) :
+    (td.alias, Cat.typedef) ∈ f.symbols := by
+  simp only [File.symbols, List.mem_append, List.mem_map]
+  exact Or.inl ⟨td, List.mem_of_getElem? h, rfl⟩
+
+/-- **typedef cycles, any length.**  `C` is a non-empty set of local typedefs each of which is
+written as an alias of (the first typedef called like) another member of `C`. -/
+structure TypedefKnot (f : File) (C : List Nat) : Prop where
+  nonempty : C ≠ []
+  step : ∀ k ∈ C, ∃ td a, f.typedefs[k]? = some td ∧ td.ty = .ref a ∧ splitType a = .one a ∧
+    ∃ j ∈ C, typedefIdx f a = some j
+
+theorem resolveFile_of_knot {cfg : Cfg} (hcfg : isTypeCat cfg .typedef = true) {p : Program} {i : Nat} {f : File}
+    (hf : p.files[i]? = some f) {C : List Nat} (hk : TypedefKnot f C) :
+    resolveFile cfg p (programTables p) i ≠ .ok := by
+  simp only [resolveFile, hf]
+  cases ht : registerNames f with
+  | none => simp
+  | some tbl =>
+    simp only
+    cases hd : doWork cfg p (programTables p) (enumFuel p) i f tbl (incViews (programTables p) f) (fileWork f) [] with
+    | mk res tds =>
+      cases res with
+      | err e => simp
+      | crash => simp
+      | ok =>
+        simp only
+        -- what ResolveType does on the type of a member of C
+        have hmember : ∀ k ∈ C, ∃ td a j, f.typedefs[k]? = some td ∧ td.ty = .ref a ∧ splitType a = .one a ∧ j ∈ C ∧
+            typedefIdx f a = some j ∧
+            resolveType cfg f tbl (incViews (programTables p) f) (some k) (.ref a) = .ok (true, [⟨some k, some j⟩]) := by
+          intro k hkC
+          obtain ⟨td, a, htd, hty, hsp, j, hj, hidx⟩ := hk.step k hkC
+          obtain ⟨tdj, htdj, hal⟩ := typedefIdx_spec hidx
+          have hl : tlookup a tbl = some .typedef := by
+            have := addAll_defines (n := tdj.alias) (c := .typedef) f.symbols [] tbl ht (symbols_typedef htdj)
+            rwa [hal] at this
+          exact ⟨td, a, j, htd, hty, hsp, hj, hidx, by simp [resolveType, hsp, hl, hcfg, hidx]⟩
+        have hcol := (doWork_collects _ _ _ hd).2
+        have hclosed : PendClosed C tds := by
+          intro it hit k hkC htg
+          cases doWork_pend _ _ _ _ hd it hit with
+          | inl h => simp at h
+          | inr h =>
+            obtain ⟨tgt, t, b, ps, hm, hr, hi⟩ := h
+            obtain ⟨htgt, n, hn, hsrc⟩ := resolveType_pend t tgt b ps hr it hi k htg
+            subst htgt hn
+            obtain ⟨td', htd', hty'⟩ := fileWork_typedef_item.mp hm
+            obtain ⟨td, a, j, htd, hty, hsp, hj, hidx, _⟩ := hmember k hkC
+            rw [htd] at htd'
+            cases htd'
+            rw [hty] at hty'
+            cases hty'
+            rcases hsrc with ⟨a', ha', hs'⟩ | ⟨pre, nm, ha', _⟩
+            · rw [hsp] at ha'
+              cases ha'
+              exact ⟨j, hj, by rw [hs', hidx]⟩
+            · rw [hsp] at ha'
+              cases ha'
+        have hex : ∃ it ∈ tds, ∃ k ∈ C, it.tgt = some k := by
+          obtain ⟨k0, hk0⟩ := List.exists_mem_of_ne_nil C hk.nonempty
+          · obtain ⟨td, a, j, htd, hty, hsp, hj, hidx, hres⟩ := hmember k0 hk0
+            obtain ⟨b, ps, hr, hin⟩ := hcol (some k0) (.ref a) (fileWork_typedef_item.mpr ⟨td, htd, hty⟩)
+            rw [hres] at hr
+            simp only [Except.ok.injEq, Prod.mk.injEq] at hr
+            exact ⟨⟨some k0, some j⟩, hin _ (hr.2 ▸ List.mem_singleton_self _), k0, hk0, rfl⟩
+        have hstuck : CatsStuck C (initCats cfg f tbl (incViews (programTables p) f)) := by
+          intro k hkC
+          obtain ⟨td, a, j, htd, hty, hsp, hj, hidx, _⟩ := hmember k hkC
+          obtain ⟨tdj, htdj, hal⟩ := typedefIdx_spec hidx
+          have hl : tlookup a tbl = some .typedef := by
+            have := addAll_defines (n := tdj.alias) (c := .typedef) f.symbols [] tbl ht (symbols_typedef htdj)
+            rwa [hal] at this
+          simp [initCats, List.getD_eq_getElem?_getD, List.getElem?_map, htd, hty, resolveType, hsp, hl, hcfg]
+        have := resolveTypedefs_stuck C (tds.length + 1) _ tds hclosed hstuck hex
+        cases hrt : resolveTypedefs (tds.length + 1) (initCats cfg f tbl (incViews (programTables p) f)) tds with
+        | none => simp
+        | some b =>
+          cases b with
+          | true => exact absurd hrt this
+          | false => simp
+
+/-! ### getEnum and the crash -/
+
+theorem getEnum_safe (cfg : Cfg) (p : Program) (tables : List (Option Table)) (fuel i : Nat) (name : Name)
+    (h : tlookup name (tableOf tables i) ≠ some .typedef) : getEnum cfg p tables (fuel + 1) i name ≠ none := by
+  simp only [getEnum]
+  cases p.files[i]? with
+  | none => simp
+  | some f =>
+    simp only
+    cases hl : tlookup name (tableOf tables i) with
+    | none => simp
+    | some c =>
+      cases c <;> first | exact absurd hl h | simp
+
+theorem incViews_tbl {tables : List (Option Table)} {f : File} {v : IncV} (h : v ∈ incViews tables f) :
+    v.tbl = tableOf tables v.ref := by
+  simp only [incViews, List.mem_map] at h
+  obtain ⟨inc, _, rfl⟩ := h
+  rfl
+
+theorem foldl_some_inv {α : Type} (g : Option Nat → α → Option Nat) : ∀ (l : List α) (n : Nat),
+    (∀ x ∈ l, ∀ m, ∃ m', g (some m) x = some m') → ∃ m', l.foldl g (some n) = some m'
+  | [], n, _ => ⟨n, rfl⟩
+  | x :: r, n, h => by
+    obtain ⟨m', hm'⟩ := h x List.mem_cons_self n
+    simp only [List.foldl_cons, hm']
+    exact foldl_some_inv g r m' fun y hy => h y (List.mem_cons_of_mem _ hy)
+
+theorem countSplit_safe (cfg : Cfg) (p : Program) (tables : List (Option Table)) (fuel i : Nat) (f : File) (ss : List Name)
+    (hs : (match ss with
+      | [a, _] => tlookup a (tableOf tables i) != some .typedef
+      | [a, e, _] => (incViews tables f).all fun v => !(v.pfx = a) || tlookup e v.tbl != some .typedef
+      | _ => true) = true) :
+    ∃ n, countSplit cfg p tables (fuel + 1) i f ss = some n := by
+  match ss, hs with
+  | [], _ => exact ⟨0, rfl⟩
+  | [a], _ => exact ⟨_, rfl⟩
+  | [a, b], hs =>
+    simp only [bne_iff_ne, ne_eq] at hs
+    have := getEnum_safe cfg p tables fuel i a hs
+    simp only [countSplit]
+    cases hg : getEnum cfg p tables (fuel + 1) i a with
+    | none => exact absurd hg this
+    | some e => exact ⟨_, rfl⟩
+  | [a, e, v], hs =>
+    simp only [countSplit]
+    apply foldl_some_inv
+    intro iv hiv m
+    simp only [List.all_eq_true] at hs
+    have h1 := hs iv hiv
+    by_cases hp : iv.pfx = a
+    · simp only [hp, decide_true, Bool.not_true, Bool.false_or, bne_iff_ne, ne_eq] at h1
+      rw [incViews_tbl hiv] at h1
+      have := getEnum_safe cfg p tables fuel iv.ref e h1
+      simp only [hp, if_true]
+      cases hg : getEnum cfg p tables (fuel + 1) iv.ref e with
+      | none => exact absurd hg this
+      | some r => cases r <;> exact ⟨_, rfl⟩
+    · simp [hp]
+  | _ :: _ :: _ :: _ :: _, _ => exact ⟨0, rfl⟩
+
+theorem countIdent_safe (cfg : Cfg) (p : Program) (tables : List (Option Table)) (fuel i : Nat) (f : File) (id : Name)
+    (h : identSafe tables i f id = true) : ∃ m, countIdent cfg p tables (fuel + 1) i f id = some m := by
+  simp only [identSafe, List.all_eq_true] at h
+  have : ∀ (l : List (List Name)) (n : Nat), (∀ ss ∈ l, ss ∈ splitValue id) →
+      ∃ m, l.foldl (fun acc ss => addCounts acc (countSplit cfg p tables (fuel + 1) i f ss)) (some n) = some m := by
+    intro l
+    induction l with
+    | nil => exact fun n _ => ⟨n, rfl⟩
+    | cons ss r ih =>
+      intro n hsub
+      obtain ⟨m, hm⟩ := countSplit_safe cfg p tables fuel i f ss (h ss (hsub ss List.mem_cons_self))
+      simp only [List.foldl_cons, hm, addCounts]
+      exact ih (n + m) fun x hx => hsub x (List.mem_cons_of_mem _ hx)
+  exact this (splitValue id) 0 fun _ h => h
+
+theorem resolveIdent_safe (cfg : Cfg) (p : Program) (tables : List (Option Table)) (fuel i : Nat) (f : File) (id : Name)
+    (h : identSafe tables i f id = true) : resolveIdent cfg p tables (fuel + 1) i f id ≠ .crash := by
+  obtain ⟨m, hm⟩ := countIdent_safe cfg p tables fuel i f id h
+  simp only [resolveIdent, hm]
+  split
+  · simp
+  · match m with
+    | 0 => simp
+    | 1 => simp
+    | _ + 2 => simp
+
+theorem resolveIdents_safe (cfg : Cfg) (p : Program) (tables : List (Option Table)) (fuel i : Nat) (f : File) :
+    ∀ (ids : List Name), (∀ id ∈ ids, identSafe tables i f id = true) →
+      resolveIdents cfg p tables (fuel + 1) i f ids ≠ .crash
+  | [], _ => by simp [resolveIdents]
+  | id :: r, h => by
+    have h1 := resolveIdent_safe cfg p tables fuel i f id (h id List.mem_cons_self)
+    simp only [resolveIdents]
+    cases hr : resolveIdent cfg p tables (fuel + 1) i f id with
+    | ok => exact resolveIdents_safe cfg p tables fuel i f r fun x hx => h x (List.mem_cons_of_mem _ hx)
+    | undefined => simp
+    | ambiguous => simp
+    | crash => exact absurd hr h1
+
+theorem doWork_no_crash {cfg : Cfg} {p : Program} {tables : List (Option Table)} {fuel i : Nat} {f : File} {tbl : Table}
+    {incs : List IncV} : ∀ (ws : List Work) (acc : List Pend),
+    (∀ ids, Work.idents ids ∈ ws → ∀ id ∈ ids, identSafe tables i f id = true) →
+    (doWork cfg p tables (fuel + 1) i f tbl incs ws acc).1 ≠ .crash
+  | [], acc, _ => by simp [doWork]
+  | .type tgt t :: r, acc, h => by
+    simp only [doWork]
+    split
+    · simp
+    · exact doWork_no_crash r _ fun ids hm => h ids (List.mem_cons_of_mem _ hm)
+  | .idents ids :: r, acc, h => by
+    have h1 := resolveIdents_safe cfg p tables fuel i f ids (h ids List.mem_cons_self)
+    cases hr : resolveIdents cfg p tables (fuel + 1) i f ids with
+    | ok =>
+      simp only [doWork, hr]
+      exact doWork_no_crash r _ fun ids hm => h ids (List.mem_cons_of_mem _ hm)
+    | err e => simp [doWork, hr]
+    | crash => exact absurd hr h1
+  | .base s :: r, acc, h => by
+    simp only [doWork]
+    split
+    · exact doWork_no_crash r _ fun ids hm => h ids (List.mem_cons_of_mem _ hm)
+    · simp
+
+/-! ### where types and constant identifiers sit in a file -/
+
+/-- every place of a file where a type is written -/
+inductive TypeSite (f : File) : Ty → Prop
+  | typedef (td : Typedef) : td ∈ f.typedefs → TypeSite f td.ty
+  | const (c : Const) : c ∈ f.consts → TypeSite f c.ty
+  | field (s : StructLike) (fl : Field) : s ∈ f.structLikes → fl ∈ s.fields → TypeSite f fl.ty
+  | ret (sv : Service) (fn : Func) : sv ∈ f.services → fn ∈ sv.funcs → fn.void = false → TypeSite f fn.ret
+  | arg (sv : Service) (fn : Func) (a : Field) : sv ∈ f.services → fn ∈ sv.funcs → a ∈ fn.args → TypeSite f a.ty
+  | throws (sv : Service) (fn : Func) (a : Field) : sv ∈ f.services → fn ∈ sv.funcs → a ∈ fn.throws → TypeSite f a.ty
+
+/-- every constant value ResolveAST looks at: constants and defaults of struct-like fields
+(defaults of arguments and of throws entries are never resolved) -/
+inductive IdentSite (f : File) : List Name → Prop
+  | const (c : Const) : c ∈ f.consts → IdentSite f c.idents
+  | field (s : StructLike) (fl : Field) : s ∈ f.structLikes → fl ∈ s.fields → fl.hasDefault = true → IdentSite f fl.dflt
+
+theorem typeSite_work {f : File} {t : Ty} (h : TypeSite f t) : ∃ tgt, Work.type tgt t ∈ fileWork f := by
+  cases h with
+  | typedef td hm =>
+    obtain ⟨k, hk⟩ := List.mem_iff_getElem?.mp hm
+    exact ⟨some k, fileWork_typedef_item.mpr ⟨td, hk, rfl⟩⟩
+  | const c hm =>
+    refine ⟨none, ?_⟩
+    simp only [fileWork, List.mem_append, List.mem_flatMap]
+    exact Or.inl (Or.inl (Or.inr ⟨c, hm, by simp⟩))
+  | field s fl hs hf =>
+    refine ⟨none, ?_⟩
+    simp only [fileWork, List.mem_append, List.mem_flatMap]
+    exact Or.inl (Or.inr ⟨s, hs, fl, hf, by simp [fieldWork]⟩)
+  | ret sv fn hs hf hv =>
+    refine ⟨none, ?_⟩
+    simp only [fileWork, List.mem_append, List.mem_flatMap]
+    exact Or.inr ⟨sv, hs, Or.inl ⟨fn, hf, by simp [funcWork, hv]⟩⟩
+  | arg sv fn a hs hf ha =>
+    refine ⟨none, ?_⟩
+    simp only [fileWork, List.mem_append, List.mem_flatMap]
+    refine Or.inr ⟨sv, hs, Or.inl ⟨fn, hf, ?_⟩⟩
+    simp only [funcWork, List.mem_append, List.mem_map]
+    exact Or.inl (Or.inr ⟨a, ha, rfl⟩)
+  | throws sv fn a hs hf ha =>
+    refine ⟨none, ?_⟩
+    simp only [fileWork, List.mem_append, List.mem_flatMap]
+    refine Or.inr ⟨sv, hs, Or.inl ⟨fn, hf, ?_⟩⟩
+    simp only [funcWork, List.mem_append, List.mem_map]
+    exact Or.inr ⟨a, ha, rfl⟩
+
+theorem identSite_work {f : File} {ids : List Name} (h : IdentSite f ids) : Work.idents ids ∈ fileWork f := by
+  cases h with
+  | const c hm =>
+    simp only [fileWork, List.mem_append, List.mem_flatMap]
+    exact Or.inl (Or.inl (Or.inr ⟨c, hm, by simp⟩))
+  | field s fl hs hf hd =>
+    simp only [fileWork, List.mem_append, List.mem_flatMap]
+    exact Or.inl (Or.inr ⟨s, hs, fl, hf, by simp [fieldWork, hd]⟩)
+
+theorem base_work {f : File} {s : Service} (h : s ∈ f.services) : Work.base s ∈ fileWork f := by
+  simp only [fileWork, List.mem_append, List.mem_flatMap]
+  exact Or.inr ⟨s, h, Or.inr (by simp)⟩
+
+theorem fileWork_idents {f : File} {ids : List Name} (h : Work.idents ids ∈ fileWork f) : ∀ id ∈ ids, id ∈ fileIdents f := by
+  intro id hid
+  simp only [fileWork, List.mem_append, List.mem_map, List.mem_flatMap, Prod.exists] at h
+  simp only [fileIdents, List.mem_append, List.mem_flatMap]
+  rcases h with ((⟨_, _, _, he⟩ | ⟨c, hc, hw⟩) | ⟨s, hs, fl, hfl, hw⟩) | ⟨s, _, hw⟩
+  · cases he
+  · simp only [List.mem_cons, Work.idents.injEq, List.not_mem_nil, or_false] at hw
+    rcases hw with hw | hw
+    · cases hw
+    · exact Or.inl ⟨c, hc, hw ▸ hid⟩
+  · simp only [fieldWork, List.mem_append, List.mem_cons, List.not_mem_nil, or_false] at hw
+    rcases hw with hw | hw
+    · cases hw
+    · split at hw
+      · rename_i hd
+        simp only [List.mem_cons, Work.idents.injEq, List.not_mem_nil, or_false] at hw
+        exact Or.inr ⟨s, hs, fl, hfl, by simp [hd, hw ▸ hid]⟩
+      · simp at hw
+  · rcases hw with ⟨fn, _, hfn⟩ | hb
+    · simp only [funcWork, List.mem_append, List.mem_map] at hfn
+      rcases hfn with (hfn | ⟨a, _, ha⟩) | ⟨a, _, ha⟩
+      · split at hfn <;> simp at hfn
+      · cases ha
+      · cases ha
+    · simp at hb
+
+/-! ## Part 4 — the pipeline -/
+
+theorem circleDetect_ne_none {p : Program} (w : WF p) : circleDetect p ≠ none :=
+  searchCircle_ne_none w _ _ [] List.nodup_nil (by simp) (by simp)
+
+theorem checkAll_err_of_violation {cfg : Cfg} {p : Program} (w : WF p) {i : Nat} {f : File}
+    (hr : Reach p i) (hf : p.files[i]? = some f) (hv : checkFile cfg f ≠ none) :
+    ∃ j c r, checkAll cfg p = .err j c r := by
+  obtain ⟨order, ho, hall⟩ := dfsOrder_complete w
+  have hat : checkAt cfg p i ≠ none := by
+    simp only [checkAt, hf]
+    cases hc : checkFile cfg f with
+    | none => exact absurd hc hv
+    | some x => simp
+  have := findSome?_ne_none (hall i hr) hat
+  simp only [checkAll, ho]
+  cases hfs : order.findSome? (checkAt cfg p) with
+  | none => exact absurd hfs this
+  | some x => exact ⟨x.1, x.2.1, x.2.2, rfl⟩
+
+theorem checkFile_of_check {cfg : Cfg} {f : File} {c : CheckFn} (hc : c ∈ cfg.checkOrder) (h : runCheck cfg c f ≠ none) :
+    checkFile cfg f ≠ none := by
+  apply findSome?_ne_none hc
+  cases hr : runCheck cfg c f with
+  | none => exact absurd hr h
+  | some r => simp
+
+theorem run_reject_of_check {cfg : Cfg} {env : Env} {p : Program} (w : WF p) (hpp : env.parsePanics = false)
+    (h : ∃ j c r, checkAll cfg p = .err j c r) : ∃ s, (run cfg env p).outcome = .reject s := by
+  obtain ⟨j, c, r, h⟩ := h
+  have hc := circleDetect_ne_none w
+  simp only [run, hpp, Bool.false_eq_true, if_false]
+  split
+  · exact ⟨_, rfl⟩
+  · split
+    · exact ⟨_, rfl⟩
+    · cases hcd : circleDetect p with
+      | none => exact absurd hcd hc
+      | some b =>
+        cases b with
+        | true => exact ⟨_, rfl⟩
+        | false => simp only [h]; exact ⟨_, rfl⟩
+
+theorem run_reject_of_circle {cfg : Cfg} {env : Env} {p : Program} (hpp : env.parsePanics = false)
+    (h : circleDetect p = some true) : ∃ s, (run cfg env p).outcome = .reject s := by
+  simp only [run, hpp, Bool.false_eq_true, if_false, h]
+  split
+  · exact ⟨_, rfl⟩
+  · split <;> exact ⟨_, rfl⟩
+
+theorem firstBad_ne_ok {g : Nat → RRes} : ∀ {l : List Nat} {i : Nat}, i ∈ l → g i ≠ .ok → firstBad g l ≠ .ok
+  | [], _, h, _ => by simp at h
+  | x :: r, i, h, hg => by
+    simp only [firstBad]
+    cases hx : g x with
+    | ok =>
+      simp only
+      cases List.mem_cons.mp h with
+      | inl e => exact absurd (e ▸ hx) hg
+      | inr hr => exact firstBad_ne_ok hr hg
+    | err e => simp
+    | crash => simp
+
+theorem firstBad_crash {g : Nat → RRes} : ∀ {l : List Nat}, firstBad g l = .crash → ∃ i ∈ l, g i = .crash
+  | [], h => by simp [firstBad] at h
+  | x :: r, h => by
+    simp only [firstBad] at h
+    cases hx : g x with
+    | ok =>
+      simp only [hx] at h
+      obtain ⟨i, hi, hg⟩ := firstBad_crash h
+      exact ⟨i, List.mem_cons_of_mem _ hi, hg⟩
+    | err e => simp [hx] at h
+    | crash => exact ⟨x, List.mem_cons_self, hx⟩
+
+theorem resolveAll_of_file {cfg : Cfg} {p : Program} (w : WF p) {i : Nat} (hr : Reach p i)
+    (h : resolveFile cfg p (programTables p) i ≠ .ok) : resolveAll cfg p ≠ .ok := by
+  obtain ⟨order, ho, hall⟩ := dfsOrder_complete w
+  simp only [resolveAll, ho]
+  exact firstBad_ne_ok (hall i hr) h
+
+/-- a resolution failure anywhere ends the run before anything is generated: rejected, or — only
+through getEnum's unbounded recursion — crashed -/
+theorem run_of_resolve_bad {cfg : Cfg} {env : Env} {p : Program} (hpp : env.parsePanics = false)
+    (h : resolveAll cfg p ≠ .ok) (hnc : (run cfg env p).outcome ≠ .crash) :
+    ∃ s, (run cfg env p).outcome = .reject s := by
+  revert hnc
+  simp only [run, hpp, Bool.false_eq_true, if_false]
+  split
+  · exact fun _ => ⟨_, rfl⟩
+  · split
+    · exact fun _ => ⟨_, rfl⟩
+    · split
+      · simp
+      · exact fun _ => ⟨_, rfl⟩
+      · split
+        · simp
+        · exact fun _ => ⟨_, rfl⟩
+        · split
+          · simp
+          · exact fun _ => ⟨_, rfl⟩
+          · rename_i hok
+            exact absurd hok h
+
+theorem resolveFile_no_crash {cfg : Cfg} {p : Program} (hs : identsAvoidTypedefs p = true) (i : Nat) :
+    resolveFile cfg p (programTables p) i ≠ .crash := by
+  simp only [resolveFile]
+  cases hf : p.files[i]? with
+  | none => simp
+  | some f =>
+    simp only
+    cases ht : registerNames f with
+    | none => simp
+    | some tbl =>
+      simp only
+      have hsafe : ∀ ids, Work.idents ids ∈ fileWork f → ∀ id ∈ ids, identSafe (programTables p) i f id = true := by
+        intro ids hm id hid
+        simp only [identsAvoidTypedefs, List.all_eq_true] at hs
+        have := hs (i, f) ((mem_enumFrom p.files 0 i f).mpr ⟨Nat.zero_le _, by simpa using hf⟩)
+        exact this id (fileWork_idents hm id hid)
+      have hfuel : enumFuel p = ((p.files.map fun f => f.typedefs.length).sum + 1) + 1 := rfl
+      have hnc := doWork_no_crash (cfg := cfg) (p := p) (tables := programTables p)
+        (fuel := (p.files.map fun f => f.typedefs.length).sum + 1) (i := i) (f := f) (tbl := tbl)
+        (incs := incViews (programTables p) f) (fileWork f) [] hsafe
+      rw [← hfuel] at hnc
+      cases hd : doWork cfg p (programTables p) (enumFuel p) i f tbl (incViews (programTables p) f) (fileWork f) [] with
+      | mk res tds =>
+        rw [hd] at hnc
+        cases res with
+        | err e => simp
+        | crash => exact absurd rfl hnc
+        | ok =>
+          simp only
+          have := resolveTypedefs_fuel (tds.length + 1) (initCats cfg f tbl (incViews (programTables p) f)) tds (Nat.lt_succ_self _)
+          cases hrt : resolveTypedefs (tds.length + 1) (initCats cfg f tbl (incViews (programTables p) f)) tds with
+          | none => exact absurd hrt this
+          | some b => cases b <;> simp
+
+theorem run_no_crash {cfg : Cfg} {env : Env} {p : Program} (w : WF p) (hs : identsAvoidTypedefs p = true) :
+    (run cfg env p).outcome ≠ .crash := by
+  obtain ⟨order, ho, _⟩ := dfsOrder_complete w
+  have hc := circleDetect_ne_none w
+  have hca : checkAll cfg p ≠ .exhausted := by
+    simp only [checkAll, ho]
+    split <;> simp
+  have hra : resolveAll cfg p ≠ .crash := by
+    simp only [resolveAll, ho]
+    intro h
+    obtain ⟨i, _, hi⟩ := firstBad_crash h
+    exact resolveFile_no_crash hs i hi
+  simp only [run, escaped]
+  repeat' split
+  all_goals first | simp | (rename_i h; first | exact absurd h hc | exact absurd h hca | exact absurd h hra) | skip
+  all_goals simp_all
+
+theorem run_persisted_iff (cfg : Cfg) (env : Env) (p : Program) :
+    (run cfg env p).persisted = true ↔ (run cfg env p).outcome = .ok := by
+  simp only [run, escaped]
+  repeat' split
+  all_goals simp
+
+theorem run_exit0 {cfg : Cfg} {env : Env} {p : Program} (h : (run cfg env p).outcome = .exit0NoOutput) :
+    cfg.handlePanicExits = false ∧ (env.parsePanics = true ∨ env.backendPanics = true) := by
+  revert h
+  simp only [run, escaped]
+  repeat' split
+  all_goals simp_all
+
+theorem resolveIdents_bad {cfg : Cfg} {p : Program} {tables : List (Option Table)} {fuel i : Nat} {f : File} {id : Name}
+    (h : resolveIdent cfg p tables fuel i f id ≠ .ok) (b : List Name) :
+    ∀ (a : List Name), resolveIdents cfg p tables fuel i f (a ++ id :: b) ≠ .ok
+  | [] => by
+    simp only [List.nil_append, resolveIdents]
+    cases hr : resolveIdent cfg p tables fuel i f id with
+    | ok => exact absurd hr h
+    | undefined => simp
+    | ambiguous => simp
+    | crash => simp
+  | x :: a => by
+    simp only [List.cons_append, resolveIdents]
+    cases hr : resolveIdent cfg p tables fuel i f x with
+    | ok => exact resolveIdents_bad h b a
+    | undefined => simp
+    | ambiguous => simp
+    | crash => simp
+
+theorem run_abstract {cfg : Cfg} {env : Env} {p : Program}
+    (h : env.flagsBad = true ∨
+      (env.parsePanics = false ∧ env.syntaxBad = true) ∨
+      (env.parsePanics = false ∧ env.backendPanics = false ∧ (env.targetsBad = true ∨ env.backendBad = true) ∧
+        (run cfg env p).outcome ≠ .crash)) :
+    ∃ s, (run cfg env p).outcome = .reject s := by
+  rcases h with h | ⟨h1, h2⟩ | ⟨h1, h2, h3, h4⟩
+  · simp [run, h]
+  · simp only [run, h1, h2]
+    split <;> simp
+  · revert h4
+    simp only [run, h1, h2, Bool.false_eq_true, if_false]
+    split
+    · exact fun _ => ⟨_, rfl⟩
+    · split
+      · exact fun _ => ⟨_, rfl⟩
+      · split
+        · simp
+        · exact fun _ => ⟨_, rfl⟩
+        · split
+          · simp
+          · exact fun _ => ⟨_, rfl⟩
+          · split
+            · simp
+            · exact fun _ => ⟨_, rfl⟩
+            · split
+              · exact fun _ => ⟨_, rfl⟩
+              · split
+                · exact fun _ => ⟨_, rfl⟩
+                · rcases h3 with h | h <;> simp_all
+
 end Diag
